@@ -8,6 +8,27 @@ TB = ("Trusted base: Go front end + go/types, golang.org/x/tools v0.29.0 (go/pac
       "jsight-schema-core@v0.2.0 behaving as read; reference tables under tools/reference. ")
 
 CHECKS = {
+ "C02": dict(
+   engine="E2 tables + rules/c02.go (+ shared C10/C11 rules)",
+   category="other",
+   text="The model round trip is behavioural and not claimed. Decided are the necessary conditions the property names: writer/reader agreement of directive parameter keys per kind, a handler or collector for every directive kind, document-order emission of ordered maps, attachment of Body/Headers to the last response of the interaction derived from the same directive, priority of a method's own Tags, and the context-resolution / macro-expansion structure shared with C11 and C10.",
+   design="DESIGN.md §5 C02",
+   note=TB + "Attachment through context resolution is covered only as far as the C11/C10 rules go.",
+   technique="cross-table agreement (writers vs readers, kinds vs handlers) extracted from typed syntax; dominance rules"),
+ "C03": dict(
+   engine="rules/c03.go",
+   category="other",
+   text="Mechanisms behind 'one fault, rejected at the fault': insert-only-after-pure-presence-test for every name-keyed collection and single-valued slot (closures passed to Update tied to the value tested before), uniqueness sets never reset and never short-cut by 'exists, skip' lookups, every fault-class message still raised on a reachable path, handler errors located on the handler's own directive, no dropped error on the build path, annotation used or rejected per kind, JSIGHT-first before anything is added. Which check fires first for each fault x layout is not claimed.",
+   design="DESIGN.md §5 C03",
+   note=TB + "Errors of a macro body are relocated to the PASTE line by design (named exception).",
+   technique="dominance of guard tests over insertions (go/cfg), liveness of error constants over the call graph, receiver-provenance lint"),
+ "C05": dict(
+   engine="rules/c02.go (C05 part) + rules/c03.go",
+   category="other",
+   text="Both sides of each cross-reference are written together from one value: tag<->interaction pairing, id/key/protocol/method/path derivation, pure presence test before every insertion, tag source priority, body test on every response iteration, JSIGHT version constant. usedUserTypes closure and exact pathVariables are produced by the dependency from data and are not claimed; the response-code range is decided under C13.",
+   design="DESIGN.md §5 C05",
+   note=TB,
+   technique="value-identity and pairing rules on typed syntax; must-pass-through inside loops"),
  "C01": dict(
    engine="E1 scanner automaton + rules/c01.go, nilness.go, cgraph.go (AST, go/cfg, SSA, VTA call graph)",
    category="other",
